@@ -168,6 +168,10 @@ impl<S> Clone for HFactory<S> {
     }
 }
 
+pub fn hfactory_tcp(ctl: Ctl) -> HFactory<actix_rt::net::TcpStream> {
+    HFactory { ctl, _p: std::marker::PhantomData }
+}
+
 pub struct HService<S> {
     ctl: Ctl,
     instance: u64,
@@ -789,6 +793,12 @@ impl Running {
         }
         if let Some(t) = self.thread.take() {
             let _ = t.join();
+        }
+        // the scripted services keep the worker task's waker (it pins the worker runtime's I/O driver): let go
+        for c in &self.ctls {
+            for i in c.inner.lock().unwrap().instances.values_mut() {
+                i.waker = None;
+            }
         }
         for a in &self.addrs {
             if let Addr::Uds(p) = a {
